@@ -27,6 +27,62 @@ CHECKS = {
             "__eq__-raising) and long equal runs; after each operation identity sequence, len, backward links and "
             "head/tail are compared with a payload-blind model.",
             "Trusted: python list as the model; operations are applied only to nodes of the list.", "DESIGN.md §5 C08"),
+    "C09": ("exploration", "reference-model monitor (builtin set/dict) after construction and after every operation; "
+            "foreign-type probes with state-unchanged oracle",
+            "Generated initialisers (empty, unsorted, with repeats, mapping / pairs) and histories over mixed int/float "
+            "keys are compared with set/dict after every step: strictly ascending iteration, content, len, membership, "
+            "lookup; foreign probes must answer absent and change nothing.",
+            "Trusted: builtin set/dict as the model, == as key identity. NaN keys excluded.", "DESIGN.md §5 C09"),
+    "C10": ("exploration", "brute-force evaluation of the defining membership formulas over an enumerated span universe",
+            "All ordered collections of <=2 spans over endpoints 0..3 with all 16 relation pairs (plus sampled longer "
+            "ones) are run through construction, `in`, & | - ^ and all nine comparison operators and compared with a "
+            "direct evaluation of the definitions.",
+            "Trusted: the 20-line reference in vf/checks/c10.py. Result sets compared as multisets.", "DESIGN.md §5 C10"),
+    "C11": ("exploration", "reference-model monitor (content.split) over generated read histories incl. interleaved "
+            "iterators; differential buffered vs mmap",
+            "Generated files (UTF-8, CR, long lines, no final newline, empty), all 8 variants, built/list/file indexes "
+            "(subset, permutation), read histories with iterators advanced step by step between random reads; every "
+            "read is compared with list semantics on the reference lines.",
+            "Trusted: '\\n'-split reference; PYTHONUTF8=1; offsets given by the caller are valid line starts.",
+            "DESIGN.md §5 C11"),
+    "C12": ("exploration", "reference-model monitor (python list) after every edit; byte oracle on save(); "
+            "SHA-256/mtime monitor on the source file",
+            "Generated edit histories on the four mutable variants compared with a list after every operation "
+            "(content, exception class, dirty rule), save() bytes checked for five line endings, saved file reopened "
+            "with every variant, source file hash and mtime watched.",
+            "Trusted: python list semantics; contents without line breaks.", "DESIGN.md §5 C12"),
+    "C13": ("exploration", "round-trip and single-line oracles on generated records; record files compared with the "
+            "record list; edit-save-reopen differential (buffered vs mmap)",
+            "Tens of thousands of generated JSON/CSV/TSV records (alternating classes that share the CSV buffer) are "
+            "round-tripped; record files are read by index/slice/iteration and mutable record files edited, saved and "
+            "reopened with both back ends.",
+            "Trusted: dataclass equality; generator domains as stated in the property. One known finding (adjacent "
+            "surrogate halves in JSON strings) is listed in known_findings.json.", "DESIGN.md §5 C13"),
+    "C15": ("exploration", "online trace checker over all n! arrival orders (n<=7) with seeded drain points; list-tail "
+            "model for the ring buffer",
+            "Every arrival order up to n=7 (8 in thorough) and sampled orders up to n=200 are fed to the real Buffer and "
+            "PrintBuffer; the checker watches the emitted stream, waiting_for and len after every step, then "
+            "flush/clear and a second round. CircularBuffer compared with the tail of the put history after every "
+            "step with all indices probed.",
+            "Trusted: the trace checker in vf/checks/c15.py; drains are complete iterations.", "DESIGN.md §5 C15"),
+    "C16": ("exploration", "linear-scan reference over enumerated small interval sets and sampled larger ones",
+            "All ordered selections of <=3 intervals over integer ends 0..4 (valid, touching, nested, degenerate, "
+            "inverted) and sampled sets of 3-6 intervals: construction outcome vs disjointness definition, lookup / "
+            "in / len / iteration vs linear scan for every grid point, midpoint and outside point.",
+            "Trusted: the linear scan; binary-exact interval ends.", "DESIGN.md §5 C16"),
+    "C17": ("exploration", "itertools.combinations brute force as reference over enumerated score vectors and all "
+            "intervals",
+            "All score vectors over 0..3 up to length 5 (6 thorough) with six monotone keys and every interval "
+            "[a,b) up to total+2; sampled vectors up to length 9 (12).",
+            "Trusted: brute force enumeration; order among equal keys not judged.", "DESIGN.md §5 C17"),
+    "C20": ("fault_enumeration", "filesystem/descriptor leak monitor after every step + enumeration of every body "
+            "position at which the with-body raises (and return/break exits); forked children around flush()",
+            "Each generated history is executed once per fault position (exception after step j for every j), plus "
+            "normal/return/break exits; directory listing, existence of every path ever returned, /proc/self/fd and "
+            "handle.closed are checked after each step and after leaving the context; multi-process pools with "
+            "children creating files before and after the parent's flush().",
+            "Trusted: os.listdir / /proc/self/fd as ground truth; faults are raised in the body, not inside the "
+            "pool's own methods.", "DESIGN.md §5 C20"),
     "C19": ("exploration", "reference-definition oracle over completely enumerated bounded domains",
             "All 3999 numerals, all sequences over a 3-letter alphabet up to the tier's length bound, all (n, batch) "
             "pairs up to the bound plus huge ranges are executed on the real helpers and compared with independent "
